@@ -86,6 +86,8 @@ def std_funcs():
         "failempty": Spec("failempty", "*a, **k", ("raise", RuntimeError, None)),
         "failtype": Spec("failtype", "*a, **k", ("typeerror-body", "unsupported operand inside body")),
         "badresult": Spec("badresult", "*a, **k", ("unconvertible",)),
+        "notready": Spec("notready", "*a, **k", ("shared-fault", -32050)),
+        "notready2": Spec("notready2", "*a, **k", ("shared-fault", 42)),
     }
     return funcs
 
@@ -109,6 +111,7 @@ def std_tree():
 
 METHOD_NAMES = ["echo", "two", "opt", "kwonly", "noargs", "kw", "ns.sum", "é", "const0", "constnull", "constfalse",
                 "constlist", "conststr", "fail", "failkey", "failos", "failuser", "failempty", "failtype", "badresult",
+                "notready", "notready2",
                 "pub", "_priv", "__dunder", "data", "sub", "sub.inner", "sub._hidden", "sub.deeper.leaf",
                 "sub.deeper._no", "sub.fail", "_hiddenns.leaf", "sub.inner.__call__", "pub.__name__",
                 "sub.__class__", "pub.spec", "nosuch", "no.such", "system.listMethods", "echo.x", ".", "..", "sub.",
